@@ -70,6 +70,10 @@ func (l *Life) ReplayWalks(walks string, cat *Catalog) int {
 		}
 		l.Reset(lcms[n%len(lcms)], "walk")
 		n++
+		if l.parkGC {
+			// build histories: start from an empty pool and keep the collector away from it
+			emptyPools()
+		}
 	acts:
 		for _, a := range w.Acts {
 			switch a.Op {
@@ -77,6 +81,9 @@ func (l *Life) ReplayWalks(walks string, cat *Catalog) int {
 				b := make([]Doc, len(a.Batch))
 				for i, ix := range a.Batch {
 					b[i] = cat.Docs[ix-1]
+				}
+				if l.parkGC {
+					l.noteResidue()
 				}
 				l.Build(b, a.Mode)
 			case "persistopen":
@@ -106,6 +113,9 @@ func (l *Life) ReplayWalks(walks string, cat *Catalog) int {
 				if k, ok := l.Merge(ins, drops, a.Mode); ok {
 					l.Open(k)
 				}
+			case "gc":
+				l.tr.Emit(EvNote{Ev: "note", Kind: "gc", Data: map[string]int{}})
+				emptyPools()
 			case "close":
 				if h := l.segs[a.Sid]; h != nil {
 					l.Close(h)
